@@ -416,6 +416,15 @@ fn parts(tier: Tier) -> Vec<SPart> {
     // boundary, followed by a tail of 0..=48 characters of one class (walks the end of the data
     // across the capacity of the symbol in steps of 2/3, 1/2, 3/4 and 1 codeword)
     v.push(SPart { part: Part { name: "ES-J long runs + tails", family: es_j(tier), cfgs: gen::cfgs(&[ALL_MODES], &[d], &on, &off) }, strong: true });
+    // ES-K: every symbol as a single-symbol list at its capacity boundaries (strong for symbols of
+    // up to 204 codewords, weak oracle beyond)
+    for si in 0..48 {
+        let c = SYMBOLS[si].data;
+        if c > 204 && tier == Tier::Quick && !matches!(c, 1558 | 1304 | 280) {
+            continue;
+        }
+        v.push(SPart { part: Part { name: "ES-K capacity boundaries of a single symbol", family: gen::es_k(c), cfgs: gen::cfgs(&[ALL_MODES], &[ListMask::single(si)], &on, &off) }, strong: c <= tier.pick(72, 204) });
+    }
     // weak verdict space (strong oracle computed and reported, but it does not decide)
     let mq = gen::modes_quick();
     v.push(SPart { part: Part { name: "W: ES-B sigma10<=4 x mode sets without ASCII", family: Family::Over { alpha: SIGMA10.to_vec(), min: 0, max: 4 }, cfgs: gen::cfgs(&gen::modes_all(), &[d, sq(12, 12)], &on, &off) }, strong: false });
